@@ -1,0 +1,144 @@
+//go:build verif
+
+package tbtc
+
+import (
+	"context"
+	"math/big"
+
+	"github.com/keep-network/keep-core/pkg/chain"
+	"github.com/keep-network/keep-core/pkg/protocol/group"
+	"github.com/keep-network/keep-core/pkg/tecdsa/dkg"
+	"github.com/keep-network/keep-core/pkg/tecdsa/signing"
+)
+
+// Verification hook (build tag verif): re-exports existing identifiers and
+// adapts exported callbacks to the unexported interfaces of the retry loops.
+
+const (
+	VerifC11SigningAnnouncementDelayBlocks  = signingAttemptAnnouncementDelayBlocks
+	VerifC11SigningAnnouncementActiveBlocks = signingAttemptAnnouncementActiveBlocks
+	VerifC11SigningMaximumProtocolBlocks    = signingAttemptMaximumProtocolBlocks
+	VerifC11SigningCoolDownBlocks           = signingAttemptCoolDownBlocks
+	VerifC11DkgAnnouncementDelayBlocks      = dkgAttemptAnnouncementDelayBlocks
+	VerifC11DkgAnnouncementActiveBlocks     = dkgAttemptAnnouncementActiveBlocks
+	VerifC11DkgMaximumProtocolBlocks        = dkgAttemptMaximumProtocolBlocks
+	VerifC11DkgCoolDownBlocks               = dkgAttemptCoolDownBlocks
+)
+
+func VerifC11SigningAttemptMaximumBlocks() uint { return signingAttemptMaximumBlocks() }
+func VerifC11DkgAttemptMaximumBlocks() uint     { return dkgAttemptMaximumBlocks() }
+
+// VerifC11Callbacks are the scripted collaborators of a retry loop.
+type VerifC11Callbacks struct {
+	GetCurrentBlock  func() (uint64, error)
+	WaitForBlock     func(ctx context.Context, block uint64) error
+	Announce         func(ctx context.Context, memberIndex group.MemberIndex, sessionID string) ([]group.MemberIndex, error)
+	Listen           func(attemptNumber uint64, attemptTimeoutBlock uint64, attemptMembersIndexes []group.MemberIndex)
+	SignalDone       func(attemptNumber uint64, endBlock uint64) error
+	WaitUntilAllDone func() (uint64, error)
+	Attempt          func(number uint, startBlock uint64, timeoutBlock uint64, excludedMembersIndexes []group.MemberIndex) (uint64, error)
+}
+
+type verifC11Announcer struct{ cb *VerifC11Callbacks }
+
+func (a *verifC11Announcer) Announce(
+	ctx context.Context,
+	memberIndex group.MemberIndex,
+	sessionID string,
+) ([]group.MemberIndex, error) {
+	return a.cb.Announce(ctx, memberIndex, sessionID)
+}
+
+type verifC11DoneCheck struct{ cb *VerifC11Callbacks }
+
+func (d *verifC11DoneCheck) listen(
+	ctx context.Context,
+	message *big.Int,
+	attemptNumber uint64,
+	attemptTimeoutBlock uint64,
+	attemptMembersIndexes []group.MemberIndex,
+) {
+	d.cb.Listen(attemptNumber, attemptTimeoutBlock, attemptMembersIndexes)
+}
+
+func (d *verifC11DoneCheck) signalDone(
+	ctx context.Context,
+	memberIndex group.MemberIndex,
+	message *big.Int,
+	attemptNumber uint64,
+	result *signing.Result,
+	endBlock uint64,
+) error {
+	return d.cb.SignalDone(attemptNumber, endBlock)
+}
+
+func (d *verifC11DoneCheck) waitUntilAllDone(ctx context.Context) (*signing.Result, uint64, error) {
+	endBlock, err := d.cb.WaitUntilAllDone()
+	if err != nil {
+		return nil, 0, err
+	}
+	return &signing.Result{}, endBlock, nil
+}
+
+// VerifC11RunSigningLoop runs signingRetryLoop.start with the scripted
+// collaborators. Returns (attemptTimeoutBlock, latestEndBlock) of the result.
+func VerifC11RunSigningLoop(
+	ctx context.Context,
+	message *big.Int,
+	initialStartBlock uint64,
+	memberIndex group.MemberIndex,
+	operators chain.Addresses,
+	groupParameters *GroupParameters,
+	cb *VerifC11Callbacks,
+) (uint64, uint64, error) {
+	srl := newSigningRetryLoop(
+		logger, message, initialStartBlock, memberIndex, operators,
+		groupParameters, &verifC11Announcer{cb}, &verifC11DoneCheck{cb},
+	)
+	res, err := srl.start(
+		ctx,
+		cb.WaitForBlock,
+		cb.GetCurrentBlock,
+		func(p *signingAttemptParams) (*signing.Result, uint64, error) {
+			endBlock, err := cb.Attempt(p.number, p.startBlock, p.timeoutBlock, p.excludedMembersIndexes)
+			if err != nil {
+				return nil, 0, err
+			}
+			return &signing.Result{}, endBlock, nil
+		},
+	)
+	if err != nil {
+		return 0, 0, err
+	}
+	return res.attemptTimeoutBlock, res.latestEndBlock, nil
+}
+
+// VerifC11RunDkgLoop runs dkgRetryLoop.start with the scripted collaborators.
+func VerifC11RunDkgLoop(
+	ctx context.Context,
+	seed *big.Int,
+	initialStartBlock uint64,
+	memberIndex group.MemberIndex,
+	operators chain.Addresses,
+	groupParameters *GroupParameters,
+	attemptsLimit uint,
+	cb *VerifC11Callbacks,
+) (int64, error) {
+	drl := newDkgRetryLoop(
+		logger, seed, initialStartBlock, memberIndex, operators,
+		groupParameters, &verifC11Announcer{cb}, attemptsLimit,
+	)
+	_, err := drl.start(
+		ctx,
+		cb.WaitForBlock,
+		func(p *dkgAttemptParams) (*dkg.Result, error) {
+			_, err := cb.Attempt(p.number, p.startBlock, p.timeoutBlock, p.excludedMembersIndexes)
+			if err != nil {
+				return nil, err
+			}
+			return &dkg.Result{}, nil
+		},
+	)
+	return drl.attemptSeed, err
+}
